@@ -613,13 +613,48 @@ func init() {
 
 		// ---------------------------------------------------------------------------------- deleteJournal
 		recheck, syncsFirst := false, false
+		ownFolderOnly := true
 		if dd := funcDecl(f, "Service", "deleteJournal"); dd == nil {
 			problem("partition.Service.deleteJournal not found")
 		} else {
 			locked, deleted, synced := false, false, false
-			pp.walk(dd, 2, func(n ast.Node, _ bool) {
+			// variables holding the partition's own folder: `v := <…>.LocalFolder()`
+			folderVars := map[string]bool{}
+			isLocalFolder := func(e ast.Expr) bool {
+				ce, ok := e.(*ast.CallExpr)
+				return ok && selName(ce.Fun) == "LocalFolder" && len(ce.Args) == 0
+			}
+			pp.walk(dd, 2, func(n ast.Node, inHelper bool) {
 				switch s := n.(type) {
+				case *ast.AssignStmt:
+					if !inHelper && len(s.Lhs) == 1 && len(s.Rhs) == 1 {
+						if id, ok := s.Lhs[0].(*ast.Ident); ok {
+							if isLocalFolder(s.Rhs[0]) {
+								folderVars[id.Name] = true
+							} else {
+								delete(folderVars, id.Name)
+							}
+						}
+					}
 				case *ast.CallExpr:
+					// every removal from the file system (os.Remove, os.RemoveAll) is given the partition's own folder: the variable
+					// assigned from LocalFolder() or that call itself (inside a helper: a plain identifier, the helper's parameter)
+					if se, ok := s.Fun.(*ast.SelectorExpr); ok && strings.HasPrefix(se.Sel.Name, "Remove") {
+						if x, ok := se.X.(*ast.Ident); ok && x.Name == "os" {
+							good := false
+							if len(s.Args) == 1 {
+								switch a := s.Args[0].(type) {
+								case *ast.Ident:
+									good = inHelper || folderVars[a.Name]
+								default:
+									good = isLocalFolder(a)
+								}
+							}
+							if !good {
+								ownFolderOnly = false
+							}
+						}
+					}
 					switch selName(s.Fun) {
 					case "Sync":
 						// <journal>.Sync() under the exclusive lock, before the size re-check
@@ -731,6 +766,8 @@ func init() {
 		l.p("def hullUpdateIndependentIfs : Bool := %s", leanBool(indep))
 		l.p("/-- `deleteJournal` re-checks the journal's size (> 0: unlock, return false) between `LockExclusively` and `TIndex.Delete` -/")
 		l.p("def deleteJournalRechecksSize : Bool := %s", leanBool(recheck))
+		l.p("/-- every `os.Remove…` call of `deleteJournal` is given the partition's own folder (`<chunks>.LocalFolder()`), nothing derived from it -/")
+		l.p("def deleteJournalRemovesOwnFolderOnly : Bool := %s", leanBool(ownFolderOnly))
 		l.p("/-- `deleteJournal` calls `Sync()` on the journal under the exclusive lock before that re-check (acknowledged records count in `Size()` only after their flush) -/")
 		l.p("def deleteJournalSyncsBeforeRecheck : Bool := %s", leanBool(syncsFirst))
 		l.p("/-- the visitor of `Service.Truncate` calls `Sync()` on the journal before it reads `Size()` (dry run and real run alike) -/")
